@@ -488,7 +488,11 @@ func (b *Builder) List(o interface{}, ident string) *List {
 }
 
 func (b *Builder) SetInverted(o interface{}) {
-	o.(*Pattern).inverted = true
+	if p, isPattern := o.(*Pattern); isPattern {
+		p.inverted = true
+	} else {
+		b.setErr(fmt.Errorf("%T does not support modifier, only pattern does", o))
+	}
 }
 
 func (b *Builder) SetRevisionDate(o interface{}, revisionDate string) {
